@@ -156,7 +156,12 @@ def gen_cases(rng, n_cases):
         if rng.integers(0, 5) == 0:
             fd = None
         chain = [None] + [[None, None, "m_uses_w", "w_uses_m"][int(rng.integers(0, 4))] for _ in range(1, n_dim)]
+        as_int = bool(rng.integers(0, 6) == 0)
+        if as_int:
+            data = np.round(data * 3) + 1.0
+            slicers = [random_slicer_cfg(rng, data[:, j]) for j in range(n_dim)]
         yield {"part": "A", "n_dim": n_dim, "cond": cond, "slicers": slicers, "fixed": fixed, "fit_desc": fd, "chain": chain,
+               "as_int": as_int,
                "data": [[float(v) for v in r] for r in data], "perm_seed": int(rng.integers(0, 2**31))}
 
 
@@ -192,6 +197,8 @@ def build_model(case):
 
 def fit_model(case, data):
     model, deps = build_model(case)
+    if case.get("as_int"):
+        data = np.asarray(data).astype(np.int64)  # whole-number observations stored as an integer matrix
     LOG.clear()
     fd = copy.deepcopy(case["fit_desc"])
     with warnings.catch_warnings():
@@ -320,6 +327,13 @@ def process(ck, case):
             else:
                 ref_want = iv["ref"]
             if f2b(float(dist.conditioning_values[q])) != f2b(ref_want):
+                if cfg["ref"] in ("median", "mean"):
+                    # callable reference: the interval's members are settled (data_intervals agree), so the
+                    # reference must be that callable applied to the members' conditioning values
+                    bad.append(("reference_is_callable_of_interval_members",
+                                f"dimension {i} interval {q}: reference {dist.conditioning_values[q]!r} but "
+                                f"np.{cfg['ref']} of the interval's conditioning values is {ref_want!r}"))
+                    break
                 div = div or f"dimension {i} interval {q}: reference {dist.conditioning_values[q]!r} model {ref_want!r}"
             b = dist.conditioning_interval_boundaries[q]
             if (f2b(float(b[0])), f2b(float(b[1]))) != (f2b(iv["lo"]), f2b(iv["hi"])):
@@ -381,7 +395,8 @@ def process(ck, case):
         with warnings.catch_warnings():
             warnings.simplefilter("ignore")
             try:
-                model.fit(data_b, fit_descriptions=copy.deepcopy(case["fit_desc"]))
+                model.fit(np.asarray(data_b).astype(np.int64) if case.get("as_int") else data_b,
+                          fit_descriptions=copy.deepcopy(case["fit_desc"]))
                 err_re = None
             except Exception as e:  # noqa: BLE001
                 err_re = type(e).__name__ + ":" + str(e)[:40]
